@@ -35,6 +35,13 @@ MidAlphabet == {"ns_a", "ns_b", "ns_6p", "ns_bad", "ns_uri_bad", "dom_a", "searc
                 "opt_multi", "opt_unknown", "opt_zero", "opt_ndots_big", "lookup_bf", "lookup_junk",
                 "comment_hash", "junk_binary", "junk_lone"}
 
+\* numeric extremes (ConfigNum.tla): every numeric nameserver / option / sortlist class next to one valid and one
+\* junk nameserver line, a valid sortlist line and a valid option line
+NumAlphabet == NumClasses \cup {"ns_a", "ns_bad", "sort_1", "opt_ndots2"}
+\* the numeric option classes given through RES_OPTIONS, over a resolv.conf that sets the same fields
+RoNum == {NoVal} \cup OptNumClasses
+NumEnvAlphabet == {"opt_multi", "opt_num_ndots_15"}
+
 VARIABLES resolv, nss, netsvc, svc, ld, ro
 vars == <<resolv, nss, netsvc, svc, ld, ro>>
 
@@ -44,8 +51,11 @@ Env   == [localdomain |-> ld, res_options |-> ro]
 Init == /\ resolv = <<>> /\ nss = <<>> /\ netsvc = <<>> /\ svc = <<>>
         /\ ld \in LdSet /\ ro \in RoSet
 
+\* at most one numeric line (ConfigNum.tla) per file: the other lines are its context
 AddResolv == /\ Len(resolv) < MaxLen
-             /\ \E c \in Alphabet : resolv' = Append(resolv, c)
+             /\ \E c \in Alphabet :
+                  /\ (c \in NumClasses) => (\A k \in 1..Len(resolv) : resolv[k] \notin NumClasses)
+                  /\ resolv' = Append(resolv, c)
              /\ UNCHANGED <<nss, netsvc, svc, ld, ro>>
 AddNss    == /\ Len(nss) < MaxNss
              /\ \E c \in NssAlphabet : nss' = Append(nss, c)
@@ -60,11 +70,11 @@ AddSvc    == /\ Len(svc) < MaxSvc
 Next == AddResolv \/ AddNss \/ AddNetsvc \/ AddSvc
 Spec == Init /\ [][Next]_vars
 
-TypeOK == /\ \A k \in 1..Len(resolv) : resolv[k] \in Classes
+TypeOK == /\ \A k \in 1..Len(resolv) : resolv[k] \in AllClasses
           /\ \A k \in 1..Len(nss) : nss[k] \in NssClasses
           /\ \A k \in 1..Len(netsvc) : netsvc[k] \in SvcClasses
           /\ \A k \in 1..Len(svc) : svc[k] \in SvcClasses
-          /\ ld \in LocalDomainClasses /\ ro \in ResOptionsClasses
+          /\ ld \in LocalDomainClasses /\ ro \in ResOptionsClasses \cup OptNumClasses
 
 \* ---- C15 as invariants of the specification ----
 InvLineIndependent == LineIndependent(Files, Env)
@@ -88,8 +98,14 @@ View(c) == [flags |-> c.flags, timeout |-> c.timeout, tries |-> c.tries, ndots |
 
 HasJunk == FilesNoJunk(Files) # Files \/ EnvNoJunk(Env) # Env
 
+\* the numeric classes of the scenario with their kind and their line text, both computed from the rules: the
+\* harness binding takes them from here (it has no table of its own for these classes)
+NumIn == {c \in {resolv[k] : k \in 1..Len(resolv)} \cup {ro} : c \in NumClasses}
+NumInfo == [c \in NumIn |-> [kind |-> Kind(c), text |-> LineText(c)]]
+
 EmitScenario ==
   Emit => PrintT(ToJson([kind |-> "c15", files |-> Files, env |-> Env,
                          twin_files |-> FilesNoJunk(Files), twin_env |-> EnvNoJunk(Env), has_junk |-> HasJunk,
-                         expect |-> View(Chan(Files, Env)), expect_reinit |-> View(ReChan(Files, Env))]))
+                         expect |-> View(Chan(Files, Env)), expect_reinit |-> View(ReChan(Files, Env)),
+                         num |-> NumInfo]))
 =============================================================================
